@@ -73,6 +73,9 @@ theorem pof_tail (bufO : List Sto) (top lt lb t : Int) (ptr : Int → Option Ele
     refine Or.inr (Or.inr (Or.inr ⟨e, h1, h2, ?_⟩))
     rw [← h4, getLast?_tail_of_length x A' hA']
 
+theorem cl2_viewBase (buf : List Sto) (base h : Int) (hs : Cl2Shape buf base h) : viewBase buf base = h := by
+  rcases hs with rfl | ⟨rfl, rfl⟩ <;> simp [viewBase]
+
 theorem rc1_viewTop (buf : List Sto) (top base lb lt sh off : Int) (h : Rc1Shape buf top base lb lt sh off) :
     viewTop buf top = top := by
   rcases h with ⟨h1, _⟩ | ⟨h1, _⟩ <;> simp [h1, viewTop]
@@ -136,20 +139,20 @@ macro "tso_simp_h" : tactic => `(tactic|
 macro "tso_finish" : tactic => `(tactic| (
     constructor
     all_goals (try simp only [ownerLocked, carry, resetting, ownerFlight, upd_apply, applySto])
-    all_goals (first | assumption | grind [thiefLocked, mayBuf, notTrans, thiefFlight, popWin, List.length_dropLast] | grind [thiefLocked, mayBuf, notTrans, thiefFlight, popWin, List.length_dropLast, getLast?_tail_of_length, head?_append_of_ne, CarryShape, Pu2Shape, PofShape, Po6Shape, Po8Shape, Po9Shape, InsShape, Rc1Shape, Rc2Shape, RcPre, RcShape, Po5cShape, Wk4uShape, Vk5Shape, VuShape, TkfShape, Tk6Shape] | skip)))
+    all_goals (first | assumption | grind [thiefLocked, mayBuf, notTrans, thiefFlight, popWin, List.length_dropLast] | grind [thiefLocked, mayBuf, notTrans, thiefFlight, popWin, List.length_dropLast, getLast?_tail_of_length, head?_append_of_ne, CarryShape, Pu2Shape, PofShape, Po6Shape, Po8Shape, Po9Shape, InsShape, Rc1Shape, Rc2Shape, RcPre, RcShape, Po5cShape, Cl2Shape, Cl3Shape, Wk4uShape, Vk5Shape, VuShape, TkfShape, Tk6Shape] | skip)))
 
 /-- the closing part of `tso_finish`, for proofs that treat some clauses by hand after `constructor` -/
 macro "tso_rest" : tactic => `(tactic| (
-    all_goals (first | assumption | grind [thiefLocked, mayBuf, notTrans, thiefFlight, popWin, List.length_dropLast] | grind [thiefLocked, mayBuf, notTrans, thiefFlight, popWin, List.length_dropLast, getLast?_tail_of_length, head?_append_of_ne, upd_apply, CarryShape, Pu2Shape, PofShape, Po6Shape, Po8Shape, Po9Shape, InsShape, Rc1Shape, Rc2Shape, RcPre, RcShape, Po5cShape, Wk4uShape, Vk5Shape, VuShape, TkfShape, Tk6Shape] | skip)))
+    all_goals (first | assumption | grind [thiefLocked, mayBuf, notTrans, thiefFlight, popWin, List.length_dropLast] | grind [thiefLocked, mayBuf, notTrans, thiefFlight, popWin, List.length_dropLast, getLast?_tail_of_length, head?_append_of_ne, upd_apply, CarryShape, Pu2Shape, PofShape, Po6Shape, Po8Shape, Po9Shape, InsShape, Rc1Shape, Rc2Shape, RcPre, RcShape, Po5cShape, Cl2Shape, Cl3Shape, Wk4uShape, Vk5Shape, VuShape, TkfShape, Tk6Shape] | skip)))
 
 /-- a store at the head of the owner's buffer that no buffer-shape clause of this program counter allows -/
 macro "tso_absurd" : tactic => `(tactic|
-  grind [CarryShape, Pu2Shape, PofShape, Po5cShape, Po6Shape, Po8Shape, Po9Shape, InsShape, Rc1Shape, Rc2Shape, RcPre, RcShape])
+  grind [CarryShape, Pu2Shape, PofShape, Po5cShape, Po6Shape, Po8Shape, Po9Shape, InsShape, Rc1Shape, Rc2Shape, RcPre, RcShape, Cl2Shape, Cl3Shape])
 
 /-- like `tso_finish`, with the shapes unfolded at once (flush steps) -/
 macro "tso_finish3" : tactic => `(tactic| (
     constructor
     all_goals (try simp only [ownerLocked, carry, resetting, ownerFlight, upd_apply, applySto])
-    all_goals (first | assumption | grind [thiefLocked, mayBuf, notTrans, thiefFlight, popWin, List.length_dropLast, getLast?_tail_of_length, head?_append_of_ne, upd_apply, CarryShape, Pu2Shape, PofShape, Po6Shape, Po8Shape, Po9Shape, InsShape, Rc1Shape, Rc2Shape, RcPre, RcShape, Po5cShape, Wk4uShape, Vk5Shape, VuShape, TkfShape, Tk6Shape] | skip)))
+    all_goals (first | assumption | grind [thiefLocked, mayBuf, notTrans, thiefFlight, popWin, List.length_dropLast, getLast?_tail_of_length, head?_append_of_ne, upd_apply, CarryShape, Pu2Shape, PofShape, Po6Shape, Po8Shape, Po9Shape, InsShape, Rc1Shape, Rc2Shape, RcPre, RcShape, Po5cShape, Cl2Shape, Cl3Shape, Wk4uShape, Vk5Shape, VuShape, TkfShape, Tk6Shape] | skip)))
 
 end MythVerif.WsqTso
